@@ -15,7 +15,7 @@ def run(ctx):
     cfgs = ["rwdi"] + (["dbg"] if ctx.thorough else [])
     # the origin theorem is stated for the library's trait values (all propagation traits true): the harness prints what the
     # compiled code says; anything else invalidates the hypothesis of `C10_origin_invariant`
-    exe0 = ctx.harness("subj_container", "rwdi", flags=["-fno-access-control"])
+    exe0 = ctx.harness("subj_container", "rwdi", flags=[])
     hdr = common.run_harness(exe0, ["0", ctx.seed], timeout=600)[1].splitlines()[:1]
     if hdr and not all(t in hdr[0] for t in ("pocca=1", "pocma=1", "pocs=1")):
         ctx.notes.append("propagation traits differ from the values the origin theorem assumes: " + hdr[0])
@@ -32,7 +32,7 @@ def run(ctx):
         import buildlib
         srcs = [buildlib.os.path.join(buildlib.VERIF, "harness", "subj_container.cpp")]
         try:
-            exe = buildlib.build_harness("subj_container_all", "rwdi", srcs, ["-fno-access-control", "-DVERIF_ALL_TYPES=128"])
+            exe = buildlib.build_harness("subj_container_all", "rwdi", srcs, ["-DVERIF_ALL_TYPES=128"])
             rc, out, err = common.run_harness(exe, ["0", ctx.seed], timeout=1200)
             lines = [l for l in out.splitlines() if l.startswith("ns ")]
             oracle = [l for l in out.splitlines() if l.startswith("oracle-fail") and "known-" not in l]
